@@ -76,4 +76,21 @@ PROPS = {
                     'Instant <= is the order of ns(), Instant::now() returns some instant; update_waker never adds/removes an entry (assumed contract)'],
         'assumptions': ['partial: see explanation; the tail of wake() (R11) and update_waker are not under contract'],
     },
+    'C12': {
+        'level': 'proof',
+        'verus': ['c11-buffer', 'c12-sync'],
+        'kani': ['io'],
+        'explanation': 'PARTIAL. Proved (Verus, real bodies): the Buffer behind both adapters (take/restore, advance drops exactly k '
+                       'pending bytes, reset, with_sync, flush_to with error safety: on Err exactly the unsent rest stays pending), and of '
+                       'the blocking-style adapter SyncReadBuf::{available_read, fill_buf, consume, is_eof} (queued bytes come out once, in '
+                       'order; empty answer only at EOF; WouldBlock otherwise) and SyncWriteBuf::flush_write_buf (a failed flush keeps '
+                       'exactly the unsent bytes; a retry sends them). Bounded (Kani, real SyncStream through its public API): limit '
+                       'honoured, short writes. NOT covered: SyncWriteBuf::write and SyncReadBuf::fill_read_buf (closures capturing &mut / '
+                       'async closures: outside Verus; too expensive for CBMC beyond the two shapes listed), the poll-style adapter '
+                       'AsyncStream (pinned self-referential futures, waker arrays: "every polling task is woken" is a schedule property).',
+        'trusted': ['H2 Buffer::compact_to preserves the pending bytes (assumed contract; bounded Kani harness io c11buf::buffer_advance_compact_fifo)',
+                    'A6 synchronous projection; abstract inner stream obeys the stream contract',
+                    'A3 Vec<u8> root axioms; compio-buf view contracts proved under C10'],
+        'assumptions': ['partial: see explanation'],
+    },
 }
